@@ -178,6 +178,8 @@ def w_power(K):
                     K.prove(f'noraise[{sig}]', p.pc, False, replay=rep)
                     continue
                 g, x, w0, w1, pw = p.value
+                bad = purity_violations(p, (w0, w1))
+                (K.fail if bad else K.ok)(f'frame[{sig}]', '; '.join(bad) if bad else 'w() and power() read gv and the object only: no hidden state, nothing written')
                 fs = toreal(g.f['fs'])
                 ff = lambda k: 2 * PI * UF['fftfreq'](N, k) * fs
                 K.prove(f'w.len[{sig}]', p.pc, z3.And(tonum(w0.shape[0]) == N, tonum(w1.shape[0]) == N), replay=rep, words='w() has one entry per sample')
